@@ -150,6 +150,10 @@ static Verdict collective_t(const Case &c, mpi::communicator &world) {
 }
 
 static Verdict collective(const Case &c, mpi::communicator &world) {
+    if (!in_exact_domain(c.g)) {   // same decision on every rank (pure function of the case)
+        if (world.rank() == 0) { stats().note_case(c, false); stats().cls("skipped-outside-exact-domain"); }
+        return Verdict::pass();
+    }
     if (c.wtype == "int") return collective_t<int>(c, world);
     return collective_t<double>(c, world);
 }
